@@ -556,6 +556,7 @@ func NewRouterEnv(spec string) (*RouterEnv, error) {
 }
 
 func (e *RouterEnv) Close() {
+	e.CloseKA()
 	if e.R != nil {
 		e.R.Close()
 	}
